@@ -1,6 +1,9 @@
 import CanvasProofs.Lemmas.C17Term
 import CanvasProofs.Lemmas.C17Sums
 import CanvasProofs.Lemmas.C17Opt10
+import CanvasProofs.Lemmas.C17BPList
+import CanvasProofs.Lemmas.C17Relax
+import CanvasProofs.Lemmas.C17Verdict
 import Mathlib.Tactic.IntervalCases
 
 /-! # C17 — `text.Linebreak` (Knuth–Plass line breaking)
@@ -129,6 +132,16 @@ theorem feasible (hrefl : ∀ a : α, (a == a) = true) (P : Params α) (items : 
   subst hb
   rw [List.reverse_reverse]; exact chain_lines hch
 
+/-- Soundness of the Lean verdict that judges the positions returned by the REAL `text.Linebreak`
+(`!` lines of kind `structure`): verdict ok (`structClass = none`) implies that the observed positions
+are non-empty, strictly increasing, all legal, end at the last item and contain every forced break. -/
+theorem structVerdict_sound (P : Params α) (items : List (Item α)) (pos : List Nat)
+    (h : structClass P items pos = none) :
+    pos ≠ [] ∧ pos.Pairwise (· < ·) ∧ (∀ p, p ∈ pos → legalAt P items p = true) ∧
+      pos.getLast? = some (items.length - 1) ∧
+      (∀ f, forcedAt P items f = true → legalAt P items f = true → f ∈ pos) :=
+  structClass_sound P items pos h
+
 /-- The relaxation loop terminates: `linebreak` never runs out of passes. Each restart strictly
 increases the tolerance, and the new tolerance is one of the finitely many ratios
 `adjRatio (item b, sums at b, sums after a break or running sums)`; the pass at tolerance +∞ falls
@@ -163,6 +176,42 @@ theorem total (hrefl : ∀ a : α, (a == a) = true) (hirr : ∀ a : α, ¬ a < a
   | ok breaks fit => exact ⟨breaks, fit, rfl⟩
 
 end
+
+/-! ## The doubly linked lists `Breakpoints` (active / inactive nodes)
+
+Pointer-level model `Canvas.C17.BP` (CanvasModel/C17/BPList.lean), tied to the real methods
+`Has/Push/InsertBefore/Remove` by exact correspondence of head/tail of both lists and prev/next of
+every node over arbitrary operation histories (hook `text.VerifBreakpointsRun`). -/
+section breakpoints
+open Canvas.C17.BP
+
+/-- Representation invariant over ALL disciplined histories (a node is named by an operation on one
+list only while it is not a member of the other list — what `mainLoop` and the overflow fallback
+do): starting from two empty lists, every history of `Push`, `InsertBefore`, `Remove`, `Has` runs
+without nil dereference; afterwards each list header and the node pointers represent a duplicate-free
+sequence (`head` = first, `tail` = last, `prev`/`next` link consecutive members, first `prev` and last
+`next` are nil — so a stale `tail` or `prev` is impossible), the two sequences are disjoint, all other
+nodes have nil pointers, and the sequences and `Has` answers are exactly those of the abstract list
+operations append / insert-before / erase / membership (`absRun`). -/
+theorem breakpoints_refine (ops : List Op) (h : DiscAll [] [] [] ops) :
+    ∃ s obs, run ⟨emptyHeap, emptyHdr, emptyHdr⟩ [] ops = some (s, obs) ∧
+      Rep2 s (absRun [] [] [] ops).1 (absRun [] [] [] ops).2.1 ∧ obs = (absRun [] [] [] ops).2.2 :=
+  run_rep2 ops _ [] [] [] rep2_init h
+
+/-- `Has` is membership for the list's own nodes and for free nodes (it inspects only the node's own
+pointers and `head`, which is why it must not be asked about a member of the other list). -/
+theorem breakpoints_has (h : Heap) (l : Hdr) (xs : List Nat) (b : Nat) (hr : Rep h l xs)
+    (hf : b ∉ xs → Free h b) : has h l b = decide (b ∈ xs) :=
+  has_iff_mem h l xs b hr hf
+
+/-- non-vacuity: a history that pushes, inserts before a member, moves a node to the other list and asks `Has` -/
+example : DiscAll [] [] [] [Op.push 0 0, Op.push 0 1, Op.insertBefore 0 2 1, Op.remove 0 0, Op.push 1 0, Op.has 0 1] ∧
+    absRun [] [] [] [Op.push 0 0, Op.push 0 1, Op.insertBefore 0 2 1, Op.remove 0 0, Op.push 1 0, Op.has 0 1] =
+      ([2, 1], [0], [true]) := by
+  refine ⟨by simp [DiscAll, Disc, absStep, absPush, absInsert, insBefore], by
+    simp [absRun, absStep, absPush, absInsert, insBefore]⟩
+
+end breakpoints
 
 /-! ## Arithmetic theorems over a linearly ordered field -/
 section field
@@ -218,6 +267,40 @@ theorem optimal_over_breakings (P : Params K) (items : List (Item K)) (lineW : K
   obtain ⟨lbf, nb, breaks, _, _, _, _, hb, hrun, _, hanc, hle'⟩ :=
     opt_core P items lineW hwf m hlen hfo hle seq d hpw hns hlast hcost
   exact ⟨breaks, nb.d.dem, hrun, by rw [hb]; exact last_dem P nb hanc, hle'⟩
+
+/-- **The stretch limit is relaxed only as far as needed** (any looseness). For a well-formed paragraph:
+if some legal breaking that skips no forced break has all its line ratios in `[-1, t]` for a tolerance
+`t ≥ Tolerance`, then `linebreak` reports no overflow and every line of the breaking it returns has its
+ratio in `[-1, tf]` for the tolerance `tf ≤ t` of the pass that completed. So the largest ratio of the
+result is at most the least `t` for which a breaking exists; in particular the restart tolerance
+`nextTolerance` never jumps past a tolerance at which a breaking exists, and never to +∞. -/
+theorem relax_minimal (P : Params K) (items : List (Item K)) (lineW : K) (hwf : WF P items lineW) (loose : Int)
+    (m : Nat) (hlen : items.length = m + 1) (hfo : forcedAt P items m = true) (hle : legalAt P items m = true)
+    (seq : List Nat) (t d : K) (ht : P.tolerance ≤ t) (hpw : seq.Pairwise (· < ·)) (hns : NoSkip P items none seq)
+    (hlast : seq.getLast? = some m) (hcost : seqCost P items lineW (some t) none 1 0 seq = some d)
+    (breaks : List (ND K)) (fit : Bool) (h : linebreak P items lineW loose = Outcome.ok breaks fit) :
+    fit = true ∧ ∃ tf, tf ≤ t ∧ LinesOKr P items lineW (some tf) breaks.reverse := by
+  obtain ⟨tf, lbf, htf, hp, hov, hf⟩ := relax_run P items lineW hwf loose m hlen seq t d hpw hns hlast hcost
+    breaks fit _ P.tolerance ht h
+  have hrefl : ∀ a : K, (a == a) = true := fun a => beq_self_eq_true a
+  have hI : Inv P items lineW (some tf) items.length lbf :=
+    passLoop_inv hrefl P items lineW _ items 0 (initLB false) lbf rfl (Nat.zero_le _) (inv_init P items lineW _ false) hp
+  obtain ⟨nb, hnb, hb, hfit, _, _, _⟩ := finish_spec P items lineW _ loose lbf m hlen hfo hle hI breaks fit hf
+  have hch := (hI.act nb hnb).1
+  rw [hov] at hch
+  refine ⟨by rw [hfit, hov]; rfl, tf, htf, ?_⟩
+  subst hb
+  rw [List.reverse_reverse]; exact chain_lines hch
+
+/-- **Overflow is reported only if it cannot be avoided** (any looseness). For a well-formed paragraph:
+if some legal breaking that skips no forced break has only lines that can be shrunk to fit (every ratio
+`≥ -1`, no bound on stretching), `linebreak` does not report overflow. -/
+theorem overflow_only_if_unavoidable (P : Params K) (items : List (Item K)) (lineW : K) (hwf : WF P items lineW)
+    (loose : Int) (m : Nat) (hlen : items.length = m + 1) (seq : List Nat) (d : K) (hpw : seq.Pairwise (· < ·))
+    (hns : NoSkip P items none seq) (hlast : seq.getLast? = some m)
+    (hcost : seqCost P items lineW none none 1 0 seq = some d)
+    (breaks : List (ND K)) (fit : Bool) (h : linebreak P items lineW loose = Outcome.ok breaks fit) : fit = true :=
+  no_overflow_run P items lineW hwf loose m hlen seq d hpw hns hlast hcost breaks fit _ _ h
 
 /-- Cost accounting and local minimality (looseness 0, no overflow reported; no well-formedness
 needed): the returned breaking is
@@ -362,6 +445,33 @@ example : NoSkip Pq paraJustified none [3, 6] := by
   · intro f h1 hf
     have := h1 3 rfl
     interval_cases f <;> decide +kernel
+
+/-- "3 ~ 3" without final glue: the only breaking has ratio 3 > Tolerance -/
+def paraRelax : List (Item Rat) := [bx 3, gl 1 1 0, bx 3, pn 0 (-1000) false]
+
+/-- non-vacuity of `relax_minimal` / `overflow_only_if_unavoidable`: the paragraph is well-formed, its only
+breaking is feasible at `t = 3` (and at +∞) but not at `Tolerance = 2`, and the run indeed relaxes -/
+example : WF Pq paraRelax 10 := by
+  refine ⟨by decide +kernel, by decide +kernel, by decide +kernel, ?_, ?_, by decide +kernel, ?_⟩
+  · intro it hit
+    simp only [paraRelax, List.mem_cons, List.not_mem_nil, or_false] at hit
+    rcases hit with rfl | rfl | rfl | rfl <;> decide +kernel
+  · intro a b hab ha hb
+    have h1 := legalAt_lt ha
+    have h2 := legalAt_lt hb
+    simp only [paraRelax, List.length_cons, List.length_nil] at h1 h2
+    interval_cases b <;> interval_cases a <;> first | omega | (revert ha hb; decide +kernel)
+  · intro b it hb hg
+    have h1 : b < paraRelax.length := (List.getElem?_eq_some_iff.mp hb).1
+    simp only [paraRelax, List.length_cons, List.length_nil] at h1 ⊢
+    interval_cases b <;> first | omega | (revert hb hg; simp [paraRelax, bx, gl, pn]; done) |
+      (revert hb hg; simp [paraRelax, bx, gl, pn]; intro hg he; rw [← he] at hg; cases hg)
+
+example : (seqCost Pq paraRelax 10 (some 3) none 1 0 [3]).isSome = true ∧
+    (seqCost Pq paraRelax 10 none none 1 0 [3]).isSome = true ∧
+    (seqCost Pq paraRelax 10 (some Pq.tolerance) none 1 0 [3]).isSome = false ∧
+    obs (linebreak Pq paraRelax 10 0) = some ([3], [7], true) := by
+  refine ⟨by decide +kernel, by decide +kernel, by decide +kernel, by decide +kernel⟩
 
 end witnesses
 
